@@ -12,7 +12,7 @@ if ! git -C "$W" apply "$patch" 2>/dev/null; then
   if ! git -C "$W" apply --3way "$patch" 2>/dev/null; then echo "PATCH-DOES-NOT-APPLY $patch"; exit 3; fi
 fi
 for p in "$@"; do
-  out=$(VERIF_REPO=$W ${VERIF_HOME:-/verif}/bin/egverify -property "$p" 2>&1); code=$?
+  out=$(VERIF_NO_EVIDENCE=1 VERIF_REPO=$W ${VERIF_HOME:-/verif}/bin/egverify -property "$p" 2>&1); code=$?
   echo "$p exit=$code $(echo "$out" | grep -E '^(violated|CHECKER-ERROR)' | cut -c1-260 | tr '\n' ';')"
 done
 git -C "$W" reset -q --hard && git -C "$W" clean -fdq
